@@ -390,7 +390,7 @@ def run(cx):
     run_batch(cx, [cc.gen_amend2_history(rng) for _ in range(cx.n(300, 8000))], "b")
     # 6. directed: a newer revision refused between the latest-revision decision and its registration for rollback
     rng = cx.sub_rng("latestwin")
-    run_batch(cx, [cc.gen_latest_window_history(rng) for _ in range(cx.n(250, 6000))], "l")
+    run_batch(cx, [cc.gen_latest_window_history(rng) for _ in range(cx.n(180, 6000))], "l")
     cx.sample(hs[0].spec()[:400])
     cx.exhaustive = False
 
